@@ -477,9 +477,18 @@ func (b *builder) genFields(label string, owner string, n int, union, args bool)
 	t := b.t
 	fn := newNamer()
 	var out []Field
+	// ids: ascending with gaps, or (1 in 4) in an order unrelated to the declaration order
+	ids := make([]int, n)
 	id := 0
-	for i := 0; i < n; i++ {
+	for i := range ids {
 		id += rapid.IntRange(1, 3).Draw(t, label+".idstep")
+		ids[i] = id
+	}
+	if n > 1 && rapid.IntRange(0, 3).Draw(t, label+".idshuffle") == 0 {
+		ids = rapid.Permutation(ids).Draw(t, label+".idorder")
+	}
+	for i := 0; i < n; i++ {
+		id = ids[i]
 		f := Field{ID: id}
 		f.Name = b.c.genName(t, fn, label+".fname", memberStyles)
 		if b.c.hz(t, HzKeywordArg, 40) {
@@ -488,6 +497,9 @@ func (b *builder) genFields(label string, owner string, n int, union, args bool)
 		f.Type = b.genType(label+".ftype", 2, false, nil)
 		if !union {
 			f.Req = rapid.SampledFrom([]string{"", "", "required", "optional"}).Draw(t, label+".req")
+		} else {
+			// a requiredness keyword may be written on a union field; it stays optional all the same
+			f.Req = rapid.SampledFrom([]string{"", "", "", "optional", "required"}).Draw(t, label+".ureq")
 		}
 		if args {
 			f.Req = rapid.SampledFrom([]string{"", "", "", "required"}).Draw(t, label+".areq")
@@ -674,10 +686,25 @@ func (b *builder) genDecls() {
 			b.add(d)
 		default:
 			d := &Decl{Kind: k, Name: c.genName(t, b.names, k, typeStyles), Doc: b.doc(k), Ann: b.ann(k)}
-			if b.fi > 0 && rapid.IntRange(0, 3).Draw(t, k+".twin?") == 0 {
+			twinOdds := 3
+			if k == "exception" {
+				twinOdds = 1 // same-named exceptions of two files in one throws list are a known weak spot
+			}
+			if b.fi > 0 && rapid.IntRange(0, twinOdds).Draw(t, k+".twin?") == 0 {
 				// a declaration of the same kind and name as one in an earlier file (another package)
 				var twins []string
+				if k == "exception" {
+					// of an included file, so that services of this file can throw both
+					for _, a := range b.types {
+						if a.kind == "exception" && a.file != b.fi {
+							twins = append(twins, a.name)
+						}
+					}
+				}
 				for _, f := range b.p.Files[:b.fi] {
+					if len(twins) > 0 && k == "exception" {
+						break
+					}
 					for _, od := range f.Decls {
 						if od.Kind == k {
 							twins = append(twins, od.Name)
@@ -746,13 +773,39 @@ func (b *builder) genDecls() {
 				default:
 					m.Ret = b.genType("ret", 2, false, nil)
 				}
-				if !m.Oneway && len(excs) > 0 && rapid.IntRange(0, 1).Draw(t, "throws?") == 0 {
-					ne := rapid.IntRange(1, 2).Draw(t, "nthrows")
+				hasTwins := false
+				for _, e := range excs {
+					for _, o := range excs {
+						if e.name == o.name && e.file != o.file {
+							hasTwins = true
+						}
+					}
+				}
+				if !m.Oneway && len(excs) > 0 && (rapid.IntRange(0, 1).Draw(t, "throws?") == 0 || hasTwins && rapid.Bool().Draw(t, "throws.twins?")) {
+					ne := rapid.IntRange(1, 3).Draw(t, "nthrows")
+					if hasTwins && ne < 2 {
+						ne = 2
+					}
 					used := map[string]bool{}
 					en := newNamer()
 					id := 0
 					for k := 0; k < ne; k++ {
 						a := excs[rapid.IntRange(0, len(excs)-1).Draw(t, "exc")]
+						if k == 0 && ne >= 2 {
+							// start with an exception that has a twin, if there is one
+							var withTwin []avail
+							for _, e := range excs {
+								for _, o := range excs {
+									if e.name == o.name && e.file != o.file {
+										withTwin = append(withTwin, e)
+										break
+									}
+								}
+							}
+							if len(withTwin) > 0 && rapid.IntRange(0, 3).Draw(t, "exc.first.twin?") != 0 {
+								a = withTwin[rapid.IntRange(0, len(withTwin)-1).Draw(t, "exc.first.twin")]
+							}
+						}
 						if k > 0 {
 							// prefer the twin (same name, other file) of an exception already listed
 							var tw []avail
@@ -763,7 +816,7 @@ func (b *builder) genDecls() {
 									}
 								}
 							}
-							if len(tw) > 0 && rapid.Bool().Draw(t, "exc.twin?") {
+							if len(tw) > 0 && rapid.IntRange(0, 3).Draw(t, "exc.twin?") != 0 {
 								a = tw[rapid.IntRange(0, len(tw)-1).Draw(t, "exc.twin")]
 							}
 						}
